@@ -674,8 +674,8 @@ def gen_cmc_b(rng, keys, feat=(), version=None):
     elif "ruler6" in feat:
         cols = rng.choice(ALT_COLS)
         out.append(ruler(cols))
-    else:
-        out.append(b"** SYNTHESISED TABLE B")
+    elif "nohead" not in feat:
+        out.append(b"** SYNTHESISED TABLE B")      # "nohead": the first line of the file is the version line or an entry
     if version is not None:
         out.append(b"** VERSION %03d.001 test" % version)
     for e in es:
@@ -790,7 +790,7 @@ def csv_scenarios(rng, tier):
 
 FEATS_B = [(), ("shuffle",), ("ruler6",), ("ruler7", "shuffle"), ("crlf",), ("comments", "shuffle"), ("extreme",),
            ("trailing",), ("nonl",), ("crlf", "comments", "trailing", "shuffle"), ("ruler7", "crlf", "comments"),
-           ("dups",), ("dups", "shuffle", "comments")]
+           ("dups",), ("dups", "shuffle", "comments"), ("nohead",), ("nohead", "shuffle", "crlf"), ("nohead", "comments")]
 FEATS_D = [(), ("shuffle",), ("crlf",), ("comments",), ("tabs", "shuffle"), ("nonl",), ("crlf", "comments", "shuffle", "nonl")]
 
 def pick_keys(rng, n, lo=1, hi=63):
